@@ -493,3 +493,44 @@ def run_lexpos(prop, S, outdir):
         res = Result(ob, "F", "verified", "", 0, meta)
     info = {"unit": "engine_f_lexpos", "engine": "frame audit (text)", "cmd": f"writers of current_byte/current_line/current_col/rest in basic_tokenize: {inside} inside `advance!`, {len(writers)} outside", "wall_s": 0.0, "smt_s": 0.0, "trusted": [], "functions": ["parsing::lexer::basic_tokenize (position state)"], "assumptions": ["engine F (lexer position): writers are found as text (assignment operators and &mut borrows of the four variables); the step itself is verified in unit lex_raw at the sites extracted there, the other expansions are the same macro body"]}
     return [res], [info]
+
+
+def run_cyclechecks(prop, S, outdir):
+    """C11 (anchor "both run for every template on every finalize"): in finalize_templates the parent walk
+    (find_parents) and the include-cycle check (check_include_cycles) are UNCONDITIONAL statements of a loop over the
+    templates.  Either call gone = violation; a call that now sits under an `if` / `match` / closure is not refuted
+    (the guard may be harmless) but is no longer what was audited: frame changed, re-audit."""
+    from driver import Result
+    import vx
+
+    if prop not in ("C11", "ALL"):
+        return [], []
+    ob = "frame/finalize/cycle_checks_unconditional"
+    meta = {"unit": "engine_f", "props": ["C11"], "what": "find_parents and check_include_cycles run for every template on every finalize"}
+    try:
+        src = S("expanded")
+        fn = next(f for f in src.items if f["kind"] == "fn" and f["path"].endswith("Tera::finalize_templates"))
+    except Exception as e:  # noqa: BLE001
+        return [Result(ob, "F", "undecided", f"inventory failed: {e}", 0, meta)], []
+    gone, guarded, seen = [], [], 0
+    for name in ("find_parents", "check_include_cycles"):
+        calls = [n for n in fn["nodes"] if n["kind"] == "call" and n["func"].split("::")[-1] == name]
+        if not calls:
+            gone.append(name)
+            continue
+        seen += len(calls)
+        for c in calls:
+            anc = [a["kind"] for a in vx.ancestors(fn, c)]
+            if "loop" not in anc:
+                guarded.append(f"{name}: not inside a loop over the templates")
+            bad = [k for k in anc[: anc.index("loop")] if k in ("if", "match", "arm", "closure")] if "loop" in anc else []
+            if bad:
+                guarded.append(f"{name}: under {'/'.join(bad)}")
+    if gone:
+        res = Result(ob, "F", "false", "finalize_templates no longer calls " + ", ".join(gone), 0, dict(meta, fn="tera::Tera::finalize_templates"))
+    elif guarded:
+        res = Result(ob, "F", "undecided", "frame changed, re-audit: " + "; ".join(guarded), 0, meta)
+    else:
+        res = Result(ob, "F", "verified", "", 0, meta)
+    info = {"unit": "engine_f_cyclechecks", "engine": "frame audit (vx inventory)", "cmd": f"{seen} calls of find_parents / check_include_cycles in finalize_templates and what they are nested in (expanded source)", "wall_s": 0.0, "smt_s": 0.0, "trusted": [], "functions": ["tera::Tera::finalize_templates (the two cycle checks)"], "assumptions": ["engine F (cycle checks): the audit sees that the two calls are unconditional statements of a loop; that the loop walks EVERY template is read from the code (`ordered_names` = all keys), not proved"]}
+    return [res], [info]
